@@ -182,8 +182,10 @@ def get_period_offsets(periods_by_day: np.ndarray,
     if in_range is None:
         periods = periods_by_day[days]
     else:
-        periods = np.where(in_range, days, 0)
-        periods = periods_by_day[periods]
-        periods = np.where(in_range, periods, -1)
+        # only in-range days are looked up; an out-of-range entry must not index the map
+        # (which may legitimately be empty) and is reported as -1
+        in_range = np.asarray(in_range, dtype=bool)
+        periods = np.full(len(days), -1, dtype=periods_by_day.dtype)
+        periods[in_range] = periods_by_day[days[in_range]]
 
     return periods
